@@ -55,6 +55,13 @@ Definition obs_eqb (a b : obs) : bool :=
   && opt_eqb N.eqb (ob_console a) (ob_console b)
   && Bool.eqb (ob_pe a) (ob_pe b).
 
+(* the result of a scan operation of a history does not include the getters nor the PE probe *)
+Definition scan_obs_eqb (a b : obs) : bool :=
+  opt_eqb (pair_eqb N.eqb N.eqb) (ob_fp a) (ob_fp b)
+  && Bool.eqb (ob_nm a) (ob_nm b)
+  && list_eqb extval_eqb (ob_syms a) (ob_syms b)
+  && opt_eqb N.eqb (ob_console a) (ob_console b).
+
 Definition cop := op cparams N N.
 Inductive cout := CNone | CCloned (id : nat) | CUnit | CDef (r : dres) | CScan (o : obs).
 
@@ -63,7 +70,7 @@ Definition cout_eqb (a b : cout) : bool :=
   | CNone, CNone | CUnit, CUnit => true
   | CCloned x, CCloned y => Nat.eqb x y
   | CDef x, CDef y => dres_eqb x y
-  | CScan x, CScan y => obs_eqb x y
+  | CScan x, CScan y => scan_obs_eqb x y
   | _, _ => false
   end.
 
